@@ -443,7 +443,7 @@ def resolve_edges(parsed_rows):
                 return None
         for j, e in enumerate(edges):
             blank = e.from_ == "" and e.condition.value == "" and e.condition.variable == "" and e.condition.type == "" and e.condition.name == ""
-            if is_node and t != "no_op" and j > 0 and blank:
+            if j > 0 and blank:
                 continue
             if e.from_ == "start":
                 continue
